@@ -2664,6 +2664,12 @@ func (s *Server) serveConnCounted(c net.Conn, countConcurrency bool) error {
 		// old ctx, which the timed out handler may still be using.
 		isHead := ctx.IsHead()
 		isHTTP11 := ctx.Request.Header.IsHTTP11()
+		// Likewise remember whether a part of a streamed request body is still on
+		// the connection when the handler starts.
+		bodyStreamUnreadAtStart := false
+		if rs, ok := ctx.Request.bodyStream.(*requestStream); ok && !rs.drained() {
+			bodyStreamUnreadAtStart = true
+		}
 
 		// If a client denies a request the handler should not be called
 		if continueReadingRequest {
@@ -2691,6 +2697,11 @@ func (s *Server) serveConnCounted(c net.Conn, countConcurrency bool) error {
 			timeoutResponse.CopyTo(&ctx.Response)
 			if isHead {
 				ctx.Response.SkipBody = true
+			}
+			if bodyStreamUnreadAtStart {
+				// The abandoned handler owns the request body stream, which reads from
+				// this connection: the connection can't be used for another request.
+				connectionClose = true
 			}
 		} else {
 			isHTTP11 = ctx.Request.Header.IsHTTP11()
